@@ -586,6 +586,21 @@ struct Ctx {
     /// `--selftest-oracle`: the ORACLE (not the library) is deliberately wrong: it expects the body of
     /// `noargs` to run twice for two calls. Only to demonstrate WITNESS + `--macro-scenario` replay.
     selftest: bool,
+    /// `--prop Cxx`: only failures attributed to this property count
+    prop: Option<String>,
+}
+impl Ctx {
+    fn counts(&self, prop: &str) -> bool {
+        prop == "HARNESS" || self.prop.as_deref().map_or(true, |p| p == prop)
+    }
+    /// A scenario that can fail for two properties goes on after a failure that does not count.
+    fn report(&self, scenario_part: &str, f: Fail) -> Result<(), Fail> {
+        if self.counts(f.prop) {
+            return Err(f);
+        }
+        eprintln!("not counted (--prop {}): property={} {scenario_part}: {}", self.prop.as_deref().unwrap_or(""), f.prop, f.what);
+        Ok(())
+    }
 }
 
 struct Current {
@@ -751,6 +766,7 @@ fn fresh<R: Send>(kind: Kind, names: &[&'static str], f: impl FnOnce() -> R + Se
 /// For every ordered pair of different tuples: f(t1) then f(t2) on empty caches. The body must run for
 /// both and both results must equal the twin.
 fn check_pairs<T, V>(
+    ctx: &Ctx,
     kind: Kind,
     fname: &'static str,
     tuples: &[T],
@@ -778,7 +794,7 @@ where
                 continue;
             }
             step(format!("{fname}{t1:?} then {fname}{t2:?}"));
-            fresh(kind, &[fname], || {
+            let r = fresh(kind, &[fname], || {
                 let r1 = call(t1);
                 let n1 = instr::runs(fname);
                 if n1 != 1 {
@@ -810,7 +826,10 @@ where
                     );
                 }
                 Ok(())
-            })?;
+            });
+            if let Err(f) = r {
+                ctx.report(fname, f)?;
+            }
         }
     }
     Ok(())
@@ -838,7 +857,7 @@ fn distinct_tuples(fl: &Fl, ctx: &Ctx) -> Result<(), Fail> {
         (0, 11, 0),
     ];
     let f = fl.ints3.call;
-    check_pairs(kind, fl.ints3.name, &ints3, &|t| f(t.0, t.1, t.2), &|t| twin_ints3(t.0, t.1, t.2))?;
+    check_pairs(ctx, kind, fl.ints3.name, &ints3, &|t| f(t.0, t.1, t.2), &|t| twin_ints3(t.0, t.1, t.2))?;
 
     // (String, String)
     let strs: Vec<(String, String)> = [
@@ -868,7 +887,7 @@ fn distinct_tuples(fl: &Fl, ctx: &Ctx) -> Result<(), Fail> {
     .map(|(a, b)| (s(a), s(b)))
     .collect();
     let f = fl.strs.call;
-    check_pairs(kind, fl.strs.name, &strs, &|t| f(t.0.clone(), t.1.clone()), &|t| twin_strs(&t.0, &t.1))?;
+    check_pairs(ctx, kind, fl.strs.name, &strs, &|t| f(t.0.clone(), t.1.clone()), &|t| twin_strs(&t.0, &t.1))?;
 
     // (u32, String)
     let mixed: Vec<(u32, String)> = [
@@ -887,7 +906,7 @@ fn distinct_tuples(fl: &Fl, ctx: &Ctx) -> Result<(), Fail> {
     .map(|(a, b)| (*a, s(b)))
     .collect();
     let f = fl.plain2.call;
-    check_pairs(kind, fl.plain2.name, &mixed, &|t| f(t.0, t.1.clone()), &|t| twin2(t.0, &t.1))?;
+    check_pairs(ctx, kind, fl.plain2.name, &mixed, &|t| f(t.0, t.1.clone()), &|t| twin2(t.0, &t.1))?;
 
     // methods: (receiver id, a, b)
     let meth: Vec<(u32, u32, String)> = [
@@ -903,11 +922,11 @@ fn distinct_tuples(fl: &Fl, ctx: &Ctx) -> Result<(), Fail> {
     .map(|(id, a, b)| (*id, *a, s(b)))
     .collect();
     let f = fl.m.call;
-    check_pairs(kind, fl.m.name, &meth, &|t| f(&Recv { id: t.0 }, t.1, t.2.clone()), &|t| twin_m(t.0, t.1, &t.2))?;
+    check_pairs(ctx, kind, fl.m.name, &meth, &|t| f(&Recv { id: t.0 }, t.1, t.2.clone()), &|t| twin_m(t.0, t.1, &t.2))?;
 
     let recvs: Vec<u32> = vec![1, 12, 112, 2];
     let f = fl.m0.call;
-    check_pairs(kind, fl.m0.name, &recvs, &|id| f(&Recv { id: *id }), &|id| twin_m0(*id))?;
+    check_pairs(ctx, kind, fl.m0.name, &recvs, &|id| f(&Recv { id: *id }), &|id| twin_m0(*id))?;
 
     // no arguments: two calls, one execution
     let name = fl.noargs.name;
@@ -919,13 +938,12 @@ fn distinct_tuples(fl: &Fl, ctx: &Ctx) -> Result<(), Fail> {
         let r2 = f();
         let n = instr::runs(name);
         if n != expected_runs {
-            return fail(
-                "C02",
-                format!("{name}() called twice: the body ran {n} times, expected {expected_runs} (returned {r1} and {r2})"),
-            );
+            let what = format!("{name}() called twice: the body ran {n} times, expected {expected_runs} (returned {r1} and {r2})");
+            ctx.report(name, Fail { prop: "C02", what })?;
         }
         if r1 != TWIN_NOARGS || r2 != TWIN_NOARGS {
-            return fail("C01", format!("{name}() returned {r1} then {r2}, the uncached twin gives {TWIN_NOARGS}"));
+            let what = format!("{name}() returned {r1} then {r2}, the uncached twin gives {TWIN_NOARGS}");
+            ctx.report(name, Fail { prop: "C01", what })?;
         }
         Ok(())
     })
@@ -1504,7 +1522,6 @@ pub fn main_macro(args: &[String]) -> i32 {
         i += 2;
     }
 
-    let ctx = Ctx { seed, selftest };
     let mut list = scenarios();
     let replaying = only.is_some();
     if let Some(name) = &only {
@@ -1523,6 +1540,7 @@ pub fn main_macro(args: &[String]) -> i32 {
             return 0;
         }
     }
+    let ctx = Ctx { seed, selftest, prop: prop.clone() };
     // no scenario may depend on another one having run before it: the seed picks the order
     Rng::new(seed ^ 0x0DE2).shuffle(&mut list);
 
@@ -1549,7 +1567,7 @@ pub fn main_macro(args: &[String]) -> i32 {
                 rc = 2;
                 break;
             }
-            Err(f) if prop.as_deref().map_or(false, |p| p != f.prop) => {
+            Err(f) if !ctx.counts(f.prop) => {
                 eprintln!("not counted (--prop {}): {}", prop.as_deref().unwrap_or(""), witness_line(f.prop, &sc.name, &f.what));
             }
             Err(f) => {
